@@ -85,7 +85,10 @@ def acceptInto (s : St) (srv cli : Nat) (ckind : HKind) : St × Bool :=
   -- a connection taken from a listen backlog is bound; a descriptor received over IPC is whatever the sender made
   let fromIpc := ((s.h? srv).map (·.ipc)).getD false
   let s := if ok then (s.run [.transfer (.handle srv .acc) (.handle cli .io)]).setH cli (fun h => { h with readable := true, bound := !fromIpc, connected := !fromIpc })
-           else s.run [.closeOwner (.handle srv .acc) false]
+           else
+             -- stream.c:592-596: POLLIN is re-armed only `if (err == 0)`: after a failed uv_accept the server
+             -- stops accepting until uv_listen is called again
+             (s.run [.closeOwner (.handle srv .acc) false]).setH srv (fun h => { h with listening := false })
   let s := if nQueued s srv > 0 then s.run [.transfer (.handle srv .q) (.handle srv .acc)] else s
   (s, ok)
 
